@@ -65,6 +65,13 @@ class Env:
         return v
 
 
+
+def _axes_arg(p):
+    ax = p.get("axes")
+    if ax is not None and p.get("axes_tuple"):
+        return tuple(ax)
+    return ax
+
 def build_op(spec, env):
     import sigpy as sp
     from sigpy import linop as L
@@ -130,9 +137,9 @@ def build_op(spec, env):
             mult = A(p["mult"])
         return L.Multiply(ish, mult, conj=p.get("conj", False))
     if cls == "Circshift":
-        return L.Circshift(ish, p["shift"], axes=p.get("axes"))
+        return L.Circshift(ish, p["shift"], axes=_axes_arg(p))
     if cls == "Flip":
-        return L.Flip(ish, axes=p.get("axes"))
+        return L.Flip(ish, axes=_axes_arg(p))
     if cls == "Resize":
         return L.Resize(p["oshape"], ish, ishift=p.get("ishift"), oshift=p.get("oshift"))
     if cls == "MatMul":
@@ -155,7 +162,7 @@ def build_op(spec, env):
     if cls == "Tile":
         return L.Tile(p["oshape"], p["axes"])
     if cls == "FiniteDifference":
-        return L.FiniteDifference(ish, axes=p.get("axes"))
+        return L.FiniteDifference(ish, axes=_axes_arg(p))
     if cls == "ArrayToBlocks":
         return L.ArrayToBlocks(ish, p["blk_shape"], p["blk_strides"])
     if cls == "Interpolate":
@@ -163,7 +170,7 @@ def build_op(spec, env):
     if cls == "NUFFT":
         return L.NUFFT(ish, A(p["coord"]), oversamp=p["oversamp"], width=p["width"], toeplitz=p["toeplitz"])
     if cls == "Wavelet":
-        return L.Wavelet(ish, axes=p.get("axes"), wave_name=p["wave_name"], level=p.get("level"))
+        return L.Wavelet(ish, axes=_axes_arg(p), wave_name=p["wave_name"], level=p.get("level"))
     if cls == "ConvolveData":
         return L.ConvolveData(ish, A(p["filt"]), mode=p["mode"], strides=p.get("strides"), multi_channel=p["multi_channel"])
     if cls == "ConvolveFilter":
